@@ -14,9 +14,9 @@ import (
 	"fmt"
 	"runtime"
 	"runtime/debug"
-	"sort"
 	"strings"
 	"time"
+	"unsafe"
 )
 
 var cur *World
@@ -104,7 +104,10 @@ type World struct {
 	LogOn   bool
 	Log     []string
 	Stats   map[string]int
-	Preempt int // number of times a runnable current task was switched out
+	statK   []string
+	statV   []int
+	token   byte // address for the end-of-world happens-before edge (tasks -> Run's caller)
+	Preempt int  // number of times a runnable current task was switched out
 }
 
 type timer struct {
@@ -163,8 +166,21 @@ func (w *World) Note(s string) {
 //go:norace
 func (w *World) Digest() uint64 { return w.digest }
 
+// Stat counts a simulator-level event. Counters live in a slice while tasks
+// run (the runtime instruments map accesses for the race detector even in
+// norace code) and are folded into Stats when the run is over.
+//
 //go:norace
-func (w *World) Stat(k string) { w.Stats[k]++ }
+func (w *World) Stat(k string) {
+	for i := range w.statK {
+		if w.statK[i] == k {
+			w.statV[i]++
+			return
+		}
+	}
+	w.statK = append(w.statK, k)
+	w.statV = append(w.statV, 1)
+}
 
 //go:norace
 func (w *World) NextSeq() uint64 { w.Seq++; return w.Seq }
@@ -213,6 +229,11 @@ func (w *World) Run(fn func()) {
 	main.wake <- struct{}{}
 	<-w.done
 	raceEnable()
+	// everything the tasks did happens before what the caller does next
+	raceAcquire(unsafe.Pointer(&w.token))
+	for i, k := range w.statK {
+		w.Stats[k] += w.statV[i]
+	}
 }
 
 //go:norace
@@ -226,6 +247,7 @@ func (w *World) taskMain(t *Task) {
 	<-t.wake
 	raceEnable()
 	defer w.taskEnd(t)
+	defer raceReleaseMerge(unsafe.Pointer(&w.token))
 	if w.isDead() {
 		return
 	}
@@ -344,12 +366,16 @@ func (w *World) advanceClock() bool {
 	if len(w.timers) == 0 {
 		return false
 	}
-	sort.Slice(w.timers, func(i, j int) bool {
-		if w.timers[i].at != w.timers[j].at {
-			return w.timers[i].at < w.timers[j].at
+	// insertion sort by (at, seq): plain loops, see fs.go on instrumented runtime helpers
+	for i := 1; i < len(w.timers); i++ {
+		for j := i; j > 0; j-- {
+			a, b := w.timers[j-1], w.timers[j]
+			if a.at < b.at || (a.at == b.at && a.seq < b.seq) {
+				break
+			}
+			w.timers[j-1], w.timers[j] = b, a
 		}
-		return w.timers[i].seq < w.timers[j].seq
-	})
+	}
 	at := w.timers[0].at
 	if at > w.now {
 		w.now = at
